@@ -217,10 +217,14 @@ class RF24:
 
     def open_tx_pipe(self, address: Union[bytes, bytearray]) -> None:
         """Open a data pipe for TX transmissions."""
-        if self._pipe0_read_addr != address and self._aa & 1:
+        if self._aa & 1:
             for i, val in enumerate(address):
                 self._pipes[0][i] = val  # type: ignore[assignment, index]
             self._reg_write_bytes(RX_ADDR_P0, address)
+            if not self._config & 1 and not self._open_pipes & 1:
+                # TX role: ACK packets can only be received if pipe 0 is open
+                self._open_pipes |= 1
+                self._reg_write(OPEN_PIPES, self._open_pipes)
         for i, val in enumerate(address):
             self._tx_address[i] = val
         self._reg_write_bytes(TX_ADDRESS, address)
